@@ -476,7 +476,16 @@ func (fs *Facts) prove(op string, x, y ssa.Value, ctx FactSet, depth int) bool {
 		// values produced by a transparent helper: prove the relation at the helper's return, with the helper's facts
 		if hx, hy, ret := helperResults(x, y); ret != nil {
 			sub := fs.p.MustFacts(ret.Parent())
-			return sub.prove(op, hx, hy, sub.At(ret), depth+1)
+			if sub != fs {
+				// the caller's assumptions hold inside the helper as well
+				old := sub.assume
+				sub.assume = fs.assume
+				defer func() { sub.assume = old }()
+			}
+			if sub == fs {
+				return sub.prove(op, hx, hy, sub.At(ret), depth+1)
+			}
+			return sub.prove(op, hx, hy, sub.At(ret), depth) // a hop into another function's helper is not a proof step
 		}
 		return false
 	}
